@@ -180,6 +180,13 @@ func TestZZVerifC01(t *testing.T) {
 		if li%10 == 3 {
 			prelude = gen.GatewayShrinkScenario(lr)
 		}
+		if li%10 == 5 {
+			// expires 600 ms after generation: replica A applies before, replicas B and C after
+			prelude = gen.TokenExpiryScenario(600 * time.Millisecond)
+		}
+		if li%10 == 9 {
+			prelude, _ = gen.PeeringSecretsScenario()
+		}
 		for i := 0; i < ln; i++ {
 			idx += 1 + uint64(lr.Intn(2))
 			var c gen.Cmd
